@@ -209,7 +209,9 @@ def tlc(module, cfg, env=None, workers=1, xmx="2g", timeout=900, extra=()):
     e.pop("JAVA_TOOL_OPTIONS", None)
     if env:
         e.update({k: str(v) for k, v in env.items()})
-    cmd = ["java", "-XX:+UseParallelGC", "-Xmx" + xmx, "-Xss16m", "-cp", TLA_CP, "tlc2.TLC",
+    # the JVM's own temporary files (TLC unpacks its standard modules there) go into the run's metadir, which is
+    # removed below, instead of piling up under /tmp
+    cmd = ["java", "-XX:+UseParallelGC", "-Xmx" + xmx, "-Xss16m", "-Djava.io.tmpdir=" + meta, "-cp", TLA_CP, "tlc2.TLC",
            "-workers", str(workers), "-metadir", meta, "-config", cfg] + list(extra) + [module]
     t0 = time.time()
     try:
